@@ -155,17 +155,29 @@ def pc_ops(ctx):
     # is compared with (==, in) in the function itself (however the
     # operator is named there)
     accepted = set()
-    for n in walk_no_nested(f.node):
-        if isinstance(n, ast.Compare) and len(n.ops) == 1 and isinstance(
-                n.ops[0], (ast.Eq, ast.In)) and is_op(
-                    F.atoms(n.left, f)):
-            accepted |= consts_of(F.atoms(n.comparators[0], f))
+    frames = [(g, b) for g, b in F.frames(f, 1) if g.module is f.module]
+    per_frame = {}
+    for g, b in frames:
+        acc = set()
+        for n in walk_no_nested(g.node):
+            if isinstance(n, ast.Compare) and len(n.ops) == 1 and \
+                    isinstance(n.ops[0], (ast.Eq, ast.In)) and is_op(
+                        F.atoms(n.left, g, b)) and any(
+                    isinstance(p_, (ast.If, ast.IfExp)) and
+                    any(x is n for x in ast.walk(p_.test))
+                    for p_ in ast.walk(g.node)):
+                acc |= consts_of(F.atoms(n.comparators[0], g, b))
+        per_frame[g.fq] = acc
+    # the dispatch: the frame that tests the most operators
+    disp = max(frames, key=lambda gb: len(per_frame[gb[0].fq]))
+    accepted = per_frame[disp[0].fq]
     # ... and a raise reached only when every one of them failed
     rejected_else = False
-    for n in walk_no_nested(f.node):
+    g, b = disp
+    for n in walk_no_nested(g.node):
         if isinstance(n, ast.Raise):
             failed = set()
-            for op, l, r in F.guard_compares(n, f):
+            for op, l, r in F.guard_compares(n, g, b):
                 if op in ('NotEq', 'NotIn') and is_op(l):
                     failed |= consts_of(r)
             if accepted and failed >= accepted:
@@ -216,22 +228,28 @@ def bound_tiebreak(ctx):
              '(upper bounds with min)')
     from ..consteval import UNKNOWN, subst_eval
     repo = ctx.repo
-    f = repo.func('bfg9000.versioning:simplify_specifiers')
+    F = _facts(ctx)
+    f = F.fn('bfg9000.versioning:simplify_specifiers')
+    # the function itself and the helpers of its module it calls
+    frames = [(g, b) for g, b in F.frames(f, 1) if g.module is f.module]
     # the ordering function handed to max()/min() as key=
     keyexprs = []
-    for c in ast.walk(f.node):
-        if isinstance(c, ast.Call) and isinstance(c.func, ast.Name) and \
-                c.func.id in ('max', 'min'):
-            k = Q.kwarg(c, 'key')
-            if k is not None:
-                keyexprs.append(k)
+    mm_calls = []
+    for g, b in frames:
+        for c in ast.walk(g.node):
+            if isinstance(c, ast.Call) and isinstance(c.func, ast.Name) and \
+                    c.func.id in ('max', 'min'):
+                k = Q.kwarg(c, 'key')
+                if k is not None:
+                    keyexprs.append(k)
+                    mm_calls.append((c, g, b))
     Q.require(keyexprs, 'simplify_specifiers: no max()/min() with key=')
     kfn, kparam, kret = None, None, None
     k0 = keyexprs[0]
     if isinstance(k0, ast.Lambda):
         kfn, kparam, kret = k0, k0.args.args[0].arg, k0.body
     elif isinstance(k0, ast.Name):
-        for n in ast.walk(f.node):
+        for n in [x for g, b in frames for x in ast.walk(g.node)]:
             if isinstance(n, ast.FunctionDef) and n.name == k0.id:
                 rr = Q.returns(n)
                 if len(rr) == 1:
@@ -262,12 +280,10 @@ def bound_tiebreak(ctx):
         ctx.ob(R, 'upper-bound|<-beats-<=', rank['<'] < rank['<='], keys[0],
                'for equal versions min() keeps <= over <: the excluded '
                'version is accepted')
-    F = _facts(ctx)
     ok_lo = ok_hi = False
-    for c in ast.walk(f.node):
-        if isinstance(c, ast.Call) and isinstance(c.func, ast.Name) and \
-                c.func.id in ('max', 'min') and Q.kwarg(c, 'key') is not None:
-            cmps = F.guard_compares(c, f)
+    for c, g_, b_ in mm_calls:
+        if True:
+            cmps = F.guard_compares(c, g_, b_)
             ops_ = set()
             for op, l, r in cmps:
                 if op not in ('In', 'Eq'):
@@ -316,11 +332,30 @@ def req_single(ctx):
                 repo, f.module, Q.arg(v, 0, 'single') or ast.Constant(
                     False)) is True
         ctx.ob(R, k, ok, f.node, '{} is not split(single=True)'.format(k))
-    sp = repo.method(PKG + ':Requirement', 'split')
-    guards = [n for n in walk_no_nested(sp.node) if isinstance(n, ast.If) and
-              'single' in unparse(n.test) and any(isinstance(s, ast.Raise)
-                                                  for s in n.body)]
-    ok = bool(guards) and 'len(specs) > 1' in unparse(guards[0].test)
+    F = _facts(ctx)
+    spf = F.fn(PKG + ':Requirement.split')
+    sp = spf
+    # a raise reached when `single` holds and the simplified specifier set
+    # has more than one member
+    ok = False
+    for g in F.reach(spf, 1):
+        if g.cls is not spf.cls:
+            continue
+        for n in walk_no_nested(g.node):
+            if not isinstance(n, ast.Raise):
+                continue
+            single = any(pos and param_of(F.atoms(t, f_, b_), 'single')
+                         for t, pos, f_, b_ in F.guard_leaves(n, g))
+            many = any(
+                op == 'Gt' and has_call(l, 'len') and has_call(
+                    l, 'simplify_specifiers') and has_const(r, 1) or
+                op == 'GtE' and has_call(l, 'len') and has_call(
+                    l, 'simplify_specifiers') and has_const(r, 2) or
+                op == 'Lt' and has_call(r, 'len') and has_call(
+                    r, 'simplify_specifiers') and has_const(l, 1)
+                for op, l, r in F.guard_compares(n, g))
+            if single and many:
+                ok = True
     ctx.ob(R, 'Requirement.split|single-raises', ok, sp.node,
            'split(single=True) does not reject multiple specifiers')
     # merge: requires_private entries also in requires are merged
@@ -331,7 +366,9 @@ def req_single(ctx):
     # conflicting specifier sets are rejected at configure time: the `&`
     # of version sets + simplify (raises 'inconsistent')
     sim = repo.func('bfg9000.versioning:simplify_specifiers')
-    raises = [n for n in ast.walk(sim.node) if isinstance(n, ast.Raise)]
+    simf = F.fn('bfg9000.versioning:simplify_specifiers')
+    raises = [n for g in F.reach(simf, 1) if g.module is simf.module
+              for n in ast.walk(g.node) if isinstance(n, ast.Raise)]
     ctx.ob(R, 'simplify_specifiers|inconsistent-raises', len(raises) >= 4,
            sim.node, 'inconsistent specifier sets are no longer rejected')
 
